@@ -4,7 +4,7 @@ import numpy as np
 from core import Result
 import proto, gen, implutil
 
-THEOREMS = ['C11_positional', 'C11_length', 'C11_schedule_independent', 'C11_imap_ordered', 'C11_unordered_counterexample', 'C11_routing']
+THEOREMS = ['C11_positional', 'C11_length', 'C11_schedule_independent', 'C11_imap_ordered', 'C11_unordered_counterexample', 'C11_routing', 'C11_group_routing']
 RULE = ("2-D arrays with pairwise different rows (2..6 rows) x shared option set / None / per-row option lists (centre, burst method, thresholds, return_samples inside "
         "the dicts) x n_jobs in {1, 2, 3, rows+2, -1} x progress in {None, 'tqdm'} x return_samples, with worker completion orders perturbed by injected per-row delays "
         "(a picklable wrapper bound to bycycle.group.features.compute_features in the harness process before the pool forks; nothing in /repo changes); "
